@@ -380,7 +380,6 @@ reg("C16",
     H("c16", "c16_lemma_many1_complete", bounds="nom 7.1.3 many1(complete(p)) on a model parser with Copy output; buffer <= 8 B symbolic length (up to 8 elements)", funcs=["nom::multi::many1", "nom::combinator::complete"]),
     H("c16", "c16_lemma_many0_complete", bounds="nom 7.1.3 many0(complete(p)) on the same model parser; buffer <= 8 B", funcs=["nom::multi::many0", "nom::combinator::complete"]),
     H("c16", "c16_many_empty_and_garbage_first_record", bounds="concrete inputs: empty buffer; one complete record of unknown content type (TLS and DTLS), one symbolic payload byte", funcs=["tls_parser_many", "parse_dtls_plaintext_records"], timeout=900, mem=16),
-    H("c16", "c16_many_record_cap", bounds="16700-byte zero buffer holding one application-data record with a symbolic 16-bit declared length", funcs=["tls_parser_many", "parse_tls_plaintext"], timeout=1200, mem=16),
     H("c16", "c16_tls_parser_is_parse_tls_plaintext", bounds="<= 10 B symbolic length, all bytes symbolic; content dispatcher stubbed for both", stubs=["parse_tls_record_with_header"], funcs=["tls_parser", "parse_tls_plaintext"]),
     )
 
